@@ -116,6 +116,13 @@ theorem tpc_phi (P : Env Val) (g : Heap → Val) (hp : PureGetter P.G g) (hc : P
   · exact Nat.le_trans (Nat.le_of_eq (phi_congr P _ (readProp P s).2 rfl rfl)) hr
   · exact Nat.le_refl _
 
+theorem legacyNotify_phi (P : Env Val) (g : Heap → Val) (hp : PureGetter P.G g) (hc : P.cached = true)
+    (hu : ∀ h, P.isUndef (g h) = false) (s : St Val) (old : Old Val) :
+    phi P (legacyNotify P s old) ≤ phi P s := by
+  unfold legacyNotify
+  repeat' split
+  all_goals first | exact Nat.le_refl _ | exact tpc_phi P g hp hc hu s _
+
 theorem dispatchQuiet_phi (P : Env Val) (g : Heap → Val) (hp : PureGetter P.G g) (hc : P.cached = true)
     (hu : ∀ h, P.isUndef (g h) = false) (s0 : St Val) (m : Mutation) :
     phi P (dispatchQuiet P s0 m) ≤ phi P s0 :=
@@ -130,7 +137,7 @@ theorem dispatchFire_phi (P : Env Val) (g : Heap → Val) (hp : PureGetter P.G g
   unfold dispatchFire
   split
   · refine Nat.le_trans (sib_phi P g hp hc hu _ _) ?_
-    refine Nat.le_trans (tpc_phi P g hp hc hu _ _) ?_
+    refine Nat.le_trans (legacyNotify_phi P g hp hc hu _ _) ?_
     refine Nat.le_trans (sib_phi P g hp hc hu _ _) ?_
     exact Nat.le_of_eq (popCache_phi P s0 hc)
   · rename_i hl
@@ -240,16 +247,37 @@ theorem tpc_notes (P : Env Val) (g : Heap → Val) (hp : PureGetter P.G g) (s : 
   rw [if_pos hL, readProp_ok P g hp s hi]
   simp
 
+/-- The legacy `notify` delivers unless the dropped entry held `Undefined`. -/
+theorem legacyNotify_eq_tpc (P : Env Val) (s s0 : St Val)
+    (hn : ∀ v, s0.cache = some v → P.isUndef v = false) :
+    legacyNotify P s (popOld P s0) = tpc P s (popOld P s0) := by
+  unfold legacyNotify
+  split
+  · rename_i v hv
+    have : s0.cache = some v := by
+      unfold popOld at hv
+      split at hv
+      · split at hv
+        · rename_i w hw
+          cases hv
+          exact hw
+        · split at hv <;> cases hv
+      · split at hv <;> cases hv
+    simp [hn v this]
+  · rfl
+
 theorem dispatchFire_notes (P : Env Val) (g : Heap → Val) (hp : PureGetter P.G g) (s0 : St Val)
-    (m : Mutation) (hw : NoEntryIfUncached P s0) (hL : (P.staticL || s0.dyn) = true) :
+    (m : Mutation) (hw : NoEntryIfUncached P s0) (hL : (P.staticL || s0.dyn) = true)
+    (hn : P.legacy = true → ∀ v, s0.cache = some v → P.isUndef v = false) :
     (dispatchFire P s0 m).notes =
       s0.notes ++ [⟨if P.legacy then popOld P s0 else popOld P (sib P (P.sibPre m) s0),
                     g s0.heap, P.staticL, s0.dyn⟩] := by
   unfold dispatchFire
   split
-  · have hi : Inv P g (sib P (P.sibPre m) (popCache P s0)) :=
+  · rename_i hl
+    have hi : Inv P g (sib P (P.sibPre m) (popCache P s0)) :=
       sib_inv P g hp.partial _ _ (popCache_inv P g s0 hw)
-    rw [sib_notes, tpc_notes P g hp _ _ hi (by simpa using hL)]
+    rw [sib_notes, legacyNotify_eq_tpc P _ s0 (hn hl), tpc_notes P g hp _ _ hi (by simpa using hL)]
     simp
   · have hi : Inv P g (popCache P (sib P (P.sibPre m) s0)) :=
       popCache_inv P g _ (sib_weak P _ _ hw)
